@@ -93,6 +93,13 @@ class ExprMixin(CallMixin):
             if isinstance(top, (ast.Assign, ast.AnnAssign)) and top.value is not None:
                 if isinstance(top.value, ast.Dict) and name == "base_functions":
                     return Val(kinds=None, strs=None, elem=self.all_base_functions())
+                # a module-level scalar constant (bounds, format strings hoisted out of functions)
+                from .consteval import try_const
+                from .effvals import literal
+
+                cv = try_const(mod, top.value, None, None, default=NotImplemented)
+                if cv is not NotImplemented and isinstance(cv, (bool, int, float, str, bytes)):
+                    return literal(cv)
                 return STRUCT
         import builtins
 
